@@ -75,7 +75,7 @@ def sane_for_structured(rs: dict) -> bool:
 
 
 def run(run: core.Run) -> int:
-    n = 500 if run.tier == "quick" else 10000
+    n = 1200 if run.tier == "quick" else 10000
     prep = core.lean_prepare(MODULES)
     aud = core.audit(THEOREMS, MODULES) if prep["proofs_ok"] else {"obligations": len(THEOREMS), "discharged": 0, "ok": False, "theorems": {}}
     if not prep["driver_ok"]:
